@@ -151,3 +151,61 @@ Theorem C15_stored_names_bounded : forall e net es sv,
     slen (s_nick s) <= 63 /\ slen (s_user s) <= 63 /\ slen (prefix_string (s_prefix s)) <= 400.
 Proof. exact stored_names_bounded. Qed.
 Print Assumptions C15_stored_names_bounded.
+
+(* ---- the purpose of the trimming: every line is well-formed UTF-8, so the JSON encoder of GET /messages delivers it
+   unchanged and what the client holds is at most 510 bytes (repair of finding c15:len-delivered, /repo cb22549).
+   Hypotheses: the log entries carry valid UTF-8 (the API decodes JSON, which guarantees it) and so does the network name. *)
+From RV Require Import IrcProofs.Utf8 IrcProofs.Utf8Handlers IrcProofs.Utf8Trim IrcProofs.Utf8Out.
+
+Theorem C15_trim_purpose : forall n s, utf8 s -> utf8 (trim_partial_rune (stake n s)).
+Proof. exact utf8_trim_stake. Qed.
+Print Assumptions C15_trim_purpose.
+
+Theorem C15_outputs_utf8 : forall e net es sv en sv' out,
+  utf8 net -> Forall utf8_entry es -> utf8_entry en ->
+  RV.IrcProofs.Top.run e (init_server net) es = Some sv -> RV.Irc.Apply.apply_entry e sv en = OOk sv' out ->
+  Forall (fun o => utf8 (o_data o)) out.
+Proof. exact outputs_utf8. Qed.
+Print Assumptions C15_outputs_utf8.
+
+Theorem C15_delivered_is_stored : forall e net es sv en sv' out,
+  utf8 net -> Forall utf8_entry es -> utf8_entry en ->
+  RV.IrcProofs.Top.run e (init_server net) es = Some sv -> RV.Irc.Apply.apply_entry e sv en = OOk sv' out ->
+  Forall (fun o => json_delivered (o_data o) = o_data o) out.
+Proof. exact delivered_is_stored. Qed.
+Print Assumptions C15_delivered_is_stored.
+
+Theorem C15_delivered_length : forall e net es sv en sv' out,
+  utf8 net -> Forall utf8_entry es -> utf8_entry en ->
+  RV.IrcProofs.Top.run e (init_server net) es = Some sv -> RV.Irc.Apply.apply_entry e sv en = OOk sv' out ->
+  Forall (fun o => slen (json_delivered (o_data o)) <= max_length) out.
+Proof. exact delivered_length. Qed.
+Print Assumptions C15_delivered_length.
+
+Theorem C15_utf8_step : forall e sv en, O8State sv -> utf8_entry en -> o8_outcome (RV.Irc.Apply.apply_entry e sv en).
+Proof. exact o8_step. Qed.
+Print Assumptions C15_utf8_step.
+
+Theorem C15_json_delivered_utf8 : forall s, utf8 s -> json_delivered s = s.
+Proof. exact json_delivered_utf8. Qed.
+Print Assumptions C15_json_delivered_utf8.
+
+Theorem C15_example_history_utf8 : Forall utf8_entry RV.IrcProofs.Examples.ex_history.
+Proof. exact ex_history_utf8. Qed.
+Print Assumptions C15_example_history_utf8.
+
+(* without the trimming the statement fails: a 510-byte cut inside U+1F600 arrives as 516 bytes *)
+Theorem C15_cut_alone_grows : slen (stake 510 long_line) = 510 /\ slen (json_delivered (stake 510 long_line)) = 516.
+Proof. exact cut_grows. Qed.
+Print Assumptions C15_cut_alone_grows.
+
+Theorem C15_long_say_trimmed : long_say_check = true.
+Proof. exact long_say_trimmed. Qed.
+Print Assumptions C15_long_say_trimmed.
+
+Theorem C15_untrimmed_refuted :
+  exists m, u8 m /\ u8 (m_cmd m) /\ ~ utf8 (stake max_length (msg_bytes_full m)) /\
+            max_length < slen (json_delivered (stake max_length (msg_bytes_full m))) /\
+            utf8 (msg_bytes m) /\ slen (json_delivered (msg_bytes m)) <= max_length.
+Proof. exact untrimmed_refuted. Qed.
+Print Assumptions C15_untrimmed_refuted.
